@@ -23,6 +23,10 @@ Definition sdata := list Z.
 Definition iresp := (resp * sdata)%type.
 Definition fres := (cres (option iresp) * cstate * Z * sched * list ev)%type.
 
+(* only the three response exceptions carry e.response *)
+Definition carries_response (e : err) : bool :=
+  match e with ENegative | EInvalid | EUnexpected => true | _ => false end.
+
 (* the common shape: make_request, send_request, interpret + echo checks, optional state update *)
 Definition single_request (cfg : config) (st : cstate) (mk : M req) (interp : resp -> M sdata)
            (post : sdata -> cstate -> cstate) (now : Z) (s : sched) : fres :=
@@ -35,7 +39,7 @@ Definition single_request (cfg : config) (st : cstate) (mk : M req) (interp : re
     | COk None => (COk None, st, t, s', tr)
     | COk (Some r) =>
       match interp r with
-      | inl e => (CErr e (Some r), st, t, s', tr)
+      | inl e => (CErr e (if carries_response e then Some r else None), st, t, s', tr)
       | inr sd => (COk (Some (r, sd)), post sd st, t, s', tr)
       end
     end
